@@ -978,7 +978,12 @@ func TestC05(t *testing.T) {
 	}, profile: profC05, quickSeeds: 40, thoroughSeeds: 1600, nops: 100, drain: true})
 }
 func TestC06(t *testing.T) {
-	runCore(t, coreCfg{prop: "C06", extra: waitingPullCurrentPolicy("C06"), profile: profC06, quickSeeds: 40, thoroughSeeds: 1600, nops: 100, drain: true})
+	runCore(t, coreCfg{prop: "C06", extra: func(t *testing.T, st *Stats) {
+		waitingPullCurrentPolicy("C06")(t, st)
+		if !hasConcrete(st.Violations) {
+			deadLetterServiceLoop(t, st)
+		}
+	}, profile: profC06, quickSeeds: 40, thoroughSeeds: 1600, nops: 100, drain: true})
 }
 func TestC13(t *testing.T) {
 	runCore(t, coreCfg{prop: "C13", profile: profC13, quickSeeds: 40, thoroughSeeds: 1600, nops: 100})
